@@ -18,8 +18,8 @@ package index
 // map, or handed to another function (the cache's Add) is not returned.
 // A copy taken from a cached node starts with its own cursor at the beginning
 // (docID 0, firstDone false), whatever state the cached node is in.
-//@ func index.(*indexData).newMatchTree
-//@   returns_fresh
+// (the returns_fresh clause for index.(*indexData).newMatchTree is written with
+// its other clauses in zz_verif_contracts_c05.go)
 //@ func index.(*indexData).regexpToMatchTreeRecursive
 //@   returns_fresh
 //@ func index.(*indexData).newSubstringMatchTree
@@ -28,7 +28,7 @@ package index
 //@   returns_fresh
 //@ func index.(*docMatchTree).fresh
 //@   returns_fresh
-//@   requires t != nil
+//@   may_panic
 //@   ensures result != nil && fresh(result) && result != t
 //@   ensures result.docID == 0 && !result.firstDone
 //@   ensures result.numDocs == t.numDocs && result.reason == t.reason
